@@ -44,17 +44,18 @@ Definition writer_init (version sys comp : N) (key : bool) : res N (* effective 
 (* streamwriter.Writer.Write / frame.Writer.WriteMessage; [now] = the clock reading
    uint64(time.Since(2015-01-01))/10000 taken if the frame is signed.
    The sequence counter advances only when the frame went out. *)
-Definition stream_write (cfg : wcfg) (st : wstate) (m : msg) (now : N) : wstate * res (list N) :=
+(* the frame streamwriter builds before handing it to frame.Writer.Write *)
+Definition stream_build (cfg : wcfg) (st : wstate) (m : msg) (now : N) : res (frame * list N) :=
   let f0 := mkFrame (w_v2 cfg) (if w_v2 cfg then (match w_key cfg with Some _ => 1 | None => 0 end) else 0) 0
                     (w_seq st) (w_sys cfg) (w_comp cfg) m 0 0 0 None in
   match w_dialect cfg with
-  | None => (st, Err err_no_dialect)
+  | None => Err err_no_dialect
   | Some dl =>
     match dlookup dl (msg_id m) with
-    | None => (st, Err err_not_in_dialect)
+    | None => Err err_not_in_dialect
     | Some c =>
       match encode_in_frame (Some dl) f0 with
-      | Err e => (st, Err e) | Panic => (st, Panic)
+      | Err e => Err e | Panic => Panic
       | Ok f1 =>
         let '(id, p) := raw_of f1 in
         let f2 := set_ck f1 (gen_checksum f1 id p (c_crc c)) in
@@ -65,11 +66,36 @@ Definition stream_write (cfg : wcfg) (st : wstate) (m : msg) (now : N) : wstate 
                               else f2
                   | None => f2
                   end in
-        match marshal f3 p with
-        | Ok bs => (mkWstate (u8 (w_seq st + 1)), Ok bs)
-        | Err e => (st, Err e)
-        | Panic => (st, Panic)
-        end
+        Ok (f3, p)
       end
     end
+  end.
+
+Definition stream_write (cfg : wcfg) (st : wstate) (m : msg) (now : N) : wstate * res (list N) :=
+  match stream_build cfg st m now with
+  | Err e => (st, Err e) | Panic => (st, Panic)
+  | Ok (f, p) =>
+    match marshal f p with
+    | Ok bs => (mkWstate (u8 (w_seq st + 1)), Ok bs)
+    | Err e => (st, Err e)
+    | Panic => (st, Panic)
+    end
+  end.
+
+(* uint64(time.Since(2015-01-01)) / 10000 for a duration of [ns] nanoseconds *)
+Definition sig_ticks_of_ns (ns : N) : N := u64 ns / 10000.
+
+(* a history of writes: emitted byte strings in order (rejected writes emit nothing) *)
+Fixpoint stream_run (cfg : wcfg) (st : wstate) (ops : list (msg * N)) : list (list N) :=
+  match ops with
+  | [] => []
+  | (m, now) :: t =>
+    let '(st', r) := stream_write cfg st m now in
+    match r with Ok bs => bs :: stream_run cfg st' t | _ => stream_run cfg st' t end
+  end.
+
+Fixpoint nondec (l : list N) : bool :=
+  match l with
+  | a :: ((b :: _) as t) => (a <=? b) && nondec t
+  | _ => true
   end.
